@@ -18,6 +18,7 @@ theorem Part.script_prefix (pt : Part) (hnr : ∀ k, pt.outcome ≠ .retryAfter 
   | failAfter k => exact ⟨k, rfl⟩
   | silentAfter k => exact ⟨k, rfl⟩
   | retryAfter k => exact absurd ho (hnr k)
+  | eofAfter k => exact ⟨k, rfl⟩
 
 theorem Part.script_of_final_ok (pt : Part) (hnr : ∀ k, pt.outcome ≠ .retryAfter k) (h : pt.finalErr = some none) :
     pt.script = pt.rows := by
@@ -29,6 +30,7 @@ theorem Part.script_of_final_ok (pt : Part) (hnr : ∀ k, pt.outcome ≠ .retryA
   | failAfter k => rw [ho] at h; simp at h
   | silentAfter k => rw [ho] at h; simp at h
   | retryAfter k => exact absurd ho (hnr k)
+  | eofAfter k => rw [ho] at h; simp at h
 
 /-- what `nextMsg` can be -/
 theorem nextMsg_row {parts : List Part} {c : CState} {p : Nat} {early : Bool} {r : Row}
